@@ -97,3 +97,70 @@ Proof.
   - unfold sib. destruct (N.even (sndr / 2 ^ N.of_nat i)) eqn:Ev; [lia|].
     destruct (N.eq_dec (sndr / 2 ^ N.of_nat i) 0) as [Z|NZ]; [rewrite Z in Ev; discriminate|lia].
 Qed.
+
+(* ---- the update path keeps the number of leaf slots ---- *)
+Lemma apply_path_nodes_length_ub orig B : forall path copath t t',
+  Forall (fun p => p < B) path -> N.of_nat (length t) <= B ->
+  apply_path_nodes t path copath orig = Ok t' -> N.of_nat (length t') <= B.
+Proof.
+  induction path as [|p pr IH]; intros copath t t' Fp Lt A; cbn [apply_path_nodes] in A; [injection A as <-; exact Lt|].
+  destruct copath as [|c cr]; [injection A as <-; exact Lt|].
+  destruct (resolution_empty orig c) as [e| |]; cbn [bind] in A; try discriminate.
+  inversion Fp as [|? ? Hp Fr]; subst.
+  apply (IH cr _ t' Fr) in A; [exact A|]. destruct e; [exact Lt|].
+  assert (L : tlen (set (t ++ repeat None (N.to_nat p + 1 - length t)) p (Some (Par []))) = tlen (t ++ repeat None (N.to_nat p + 1 - length t))) by apply set_length.
+  unfold tlen in L. rewrite L, app_length, repeat_length. lia.
+Qed.
+
+Lemma path_spec_bound n : forall k j d, k <= d -> j < 2 ^ (d - k) -> N.of_nat n = d - k ->
+  Forall (fun p => p < 2 ^ (d + 1) - 1) (map CopathNode_path (path_spec n k j)).
+Proof.
+  induction n as [|n IH]; intros k j d Hk Hj Hn; cbn [path_spec map]; constructor.
+  - cbn [CopathNode_path]. pose proof (node_bound d (k + 1) (j / 2) ltac:(lia) ltac:(apply half_lt; lia)) as B.
+    pose proof (pow2_pos (k + 1)). lia.
+  - apply IH; [lia|apply half_lt; lia|lia].
+Qed.
+
+Theorem update_path_keeps_the_leaf_count t1 sndr id t2 :
+  small t1 -> apply_update_path t1 sndr id = TOk t2 ->
+  small t2 /\ total_leaf_count t2 = total_leaf_count (set t1 (2 * sndr) (Some (Leaf id))).
+Proof.
+  intros Sm Ap. set (t1' := set t1 (2 * sndr) (Some (Leaf id))).
+  assert (Sm' : small t1') by (unfold small, t1'; rewrite set_length; exact Sm).
+  assert (Ls : 2 * sndr < tlen t1).
+  { unfold apply_update_path in Ap. destruct (get t1 (2 * sndr)) as [[x|um]|] eqn:G; try discriminate. eapply get_some_lt; exact G. }
+  destruct (path_nodes_spec t1' sndr Sm' ltac:(unfold t1'; rewrite set_length; lia)) as (dd & Et & Hd & Hl & Pn & Cn).
+  destruct (total_leaf_count_spec t1' Sm') as (d' & Et' & _ & Hn & Hlow). rewrite Et in Et'.
+  assert (d' = dd) by (apply N.pow_inj_r in Et'; lia). subst d'.
+  unfold apply_update_path in Ap. destruct (get t1 (2 * sndr)) as [[x|um]|]; try discriminate. fold t1' in Ap.
+  rewrite Pn, Cn in Ap. cbn [lift tbind] in Ap.
+  destruct (apply_path_nodes t1' _ _ t1') as [tt| |] eqn:An; cbn [lift] in Ap; try discriminate.
+  assert (tt = t2) by congruence. subst tt.
+  pose proof (apply_path_nodes_length _ _ _ _ _ An) as Lo.
+  pose proof (N.mul_succ_div_gt (tlen t1') 2 ltac:(lia)) as Dv.
+  pose proof (N.mul_div_le (tlen t1') 2 ltac:(lia)) as Dl.
+  assert (B1 : tlen t1' <= 2 ^ (dd + 1) - 1) by (rewrite N.pow_add_r, N.pow_1_r; lia).
+  assert (Up : tlen t2 <= 2 ^ (dd + 1) - 1).
+  { refine (apply_path_nodes_length_ub t1' (2 ^ (dd + 1) - 1) _ _ t1' t2 _ B1 An).
+    apply (path_spec_bound (N.to_nat dd) 0 sndr dd); [lia|rewrite N.sub_0_r; exact Hl|lia]. }
+  (* the tree of t1 has fewer than 2^25 nodes, so dd <= 24 *)
+  assert (D24 : dd <= 24).
+  { destruct Hlow as [->|Hlow]; [lia|]. unfold small in Sm'. change (2 ^ 25) with 33554432 in Sm'.
+    assert (X : 2 ^ (dd - 1) < 2 ^ 24) by (change (2 ^ 24) with 16777216; lia).
+    apply N.pow_lt_mono_r_iff in X; lia. }
+  assert (Sm2 : small t2).
+  { unfold small. pose proof (pow2_le_mono (dd + 1) 25 ltac:(lia)). lia. }
+  split; [exact Sm2|].
+  destruct (total_leaf_count_spec t2 Sm2) as (d2 & E2 & _ & Hn2 & Hlow2). rewrite E2, Et. f_equal.
+  pose proof (N.mul_succ_div_gt (tlen t2) 2 ltac:(lia)) as Dv2.
+  pose proof (N.mul_div_le (tlen t2) 2 ltac:(lia)) as Dl2.
+  assert (Lo' : tlen t1' <= tlen t2) by (unfold tlen; lia).
+  assert (Dm : tlen t1' / 2 <= tlen t2 / 2) by (apply N.div_le_mono; lia).
+  rewrite N.pow_add_r, N.pow_1_r in Up.
+  (* 2^(d2-1) < len2/2+1 <= 2^dd  and  2^(dd-1) < len1/2+1 <= len2/2+1 <= 2^d2 *)
+  assert (A1 : d2 <= dd).
+  { destruct Hlow2 as [->|H2]; [lia|]. assert (X : 2 ^ (d2 - 1) < 2 ^ dd) by lia. apply N.pow_lt_mono_r_iff in X; lia. }
+  assert (A2 : dd <= d2).
+  { destruct Hlow as [->|H1]; [lia|]. assert (X : 2 ^ (dd - 1) < 2 ^ d2) by lia. apply N.pow_lt_mono_r_iff in X; lia. }
+  lia.
+Qed.
